@@ -42,7 +42,8 @@ def _hook(ev, args):
                 rp = os.path.realpath(p)
             except Exception:
                 continue
-            if TOKEN in p:
+            inside = rp == m["root"] or rp.startswith(m["root"] + "/")
+            if TOKEN in p and not inside:
                 m["events"].append((ev, p))
             elif (rp == m["jail"] or rp.startswith(m["jail"] + "/")) and not (rp == m["root"] or rp.startswith(m["root"] + "/")):
                 m["events"].append((ev, rp))
@@ -99,19 +100,39 @@ def name_language(jail, root):
         "..", "../..", "../decoy", "../decoy/inbox", "../decoy/sekrit", "../decoy/sekrit/deeper", "../decoy/nonesuch", "a/../../decoy/inbox", "a/b/../../../decoy/inbox",
         "a/b/../../../decoy/nonesuch", "inbox/../../decoy/inbox", "INBOX/../../decoy/sekrit", "../../canarydir", "../../../../..", "./../decoy/inbox", "a/./../../decoy",
         "../mailroot/../decoy/inbox", "/../decoy/inbox", "/a/../../decoy/inbox",
-        "/" + absdec + "/inbox", "/" + absdec + "/nonesuch", "//" + absdec.lstrip("/") + "/inbox", "/./" + absdec.lstrip("/") + "/inbox", "/" + abstok + "/inbox", "/" + abstok + "/nonesuch",
-        "/" + abstok, "../decoy/", "..//decoy//inbox", "a/../..", ".", "./", "a/..", "a/b/../..", "/", "//", "/.", "/..",
+        # absolute paths: absdec/abstok already start with one '/', which is also the
+        # namespace prefix the server strips once -- so spell them with one, two
+        # and three leading slashes and with '/./'
+        absdec + "/inbox", absdec + "/nonesuch", absdec + "/new/deeper", abstok + "/inbox", abstok + "/nonesuch", abstok, absdec,
+        "/" + absdec + "/inbox", "/" + absdec + "/nonesuch", "//" + absdec + "/inbox", "//" + absdec + "/nonesuch", "/." + absdec + "/inbox", "/." + absdec + "/nonesuch",
+        "/" + abstok + "/inbox", "/" + abstok + "/nonesuch", "/" + abstok,
+        "/" + TOKEN + "-top", "/" + TOKEN + "-top/sub", "//" + TOKEN + "-top2",
+        "../decoy/", "..//decoy//inbox", "a/../..", ".", "./", "a/..", "a/b/../..", "/", "//", "/.", "/..",
     ]
     exist_pairs = [("../decoy/inbox", "../decoy/nonesuch"), ("a/b/../../../decoy/inbox", "a/b/../../../decoy/nonesuch"), ("/" + absdec + "/inbox", "/" + absdec + "/nonesuch"),
+                   (absdec + "/inbox", absdec + "/nonesuch"), (abstok + "/inbox", abstok + "/nonesuch"),
                    ("/" + abstok + "/inbox", "/" + abstok + "/nonesuch"), ("../decoy/sekrit", "../decoy/sekrix")]
     return names, exist_pairs
 
 
 def escapes(name, root):
     """Does the name, read as a path below the mail root, leave it?"""
+    # two readings of a name with a leading '/': strip the namespace prefix and
+    # resolve the rest below the root, or normalise first (POSIX: '/..' is '/')
+    # and then strip.  A name is demanded to be refused only when it leaves the
+    # root under both; what the server actually touches is decided by the audit
+    # and snapshot monitors under either reading.
     n = name[1:] if name.startswith("/") else name
     p = os.path.normpath(os.path.join(root, n))
-    return not (p.startswith(root + "/"))  # the root itself is not a mailbox either
+    a = not (p.startswith(root + "/"))  # the root itself is not a mailbox either
+    if not a or not name:
+        return a
+    nn = os.path.normpath(name)
+    if nn.startswith("//"):
+        return True
+    n2 = nn[1:] if nn.startswith("/") else nn
+    p2 = os.path.normpath(os.path.join(root, n2))
+    return not (p2.startswith(root + "/"))
 
 
 def encode(rnd, s, kinds=("atom", "quoted", "literal", "literal+")):
@@ -230,7 +251,10 @@ async def script(loop, ctx):
                 problems.append(("outside-tree-changed", f"{[d[0] for d in diff]}"))
                 snap = after
             raw = r.raw or b""
-            echoed = raw.replace(nm.encode(), b"<NAME>").replace(os.path.normpath(nm).encode(), b"<NAME>")
+            echoed = raw
+            for spelling in sorted({nm, os.path.normpath(nm), nm.lstrip("/"), os.path.normpath(nm).lstrip("/")}, key=len, reverse=True):
+                if spelling:
+                    echoed = echoed.replace(spelling.encode(), b"<NAME>")
             if LEAK_RE.search(echoed):
                 problems.append(("leak-in-response", f"{LEAK_RE.search(echoed).group()!r} in {echoed[:200]!r}"))
             is_list = pos.startswith("L")
@@ -244,7 +268,7 @@ async def script(loop, ctx):
                         problems.append(("listed-name-outside-root", v))
             if r.status not in ("OK", "NO", "BAD"):
                 problems.append(("no-tagged-reply", r.status))
-            if extra and extra[0] == "pair":
+            if extra and extra[0] == "pair" and escapes(extra[1][0], root) and escapes(extra[1][1], root):
                 arg2, _ = encode(rnd, extra[1][1], kinds=(used,))
                 r2 = await s.cmd(build_cmd(pos, arg2))
                 counts["existence_pairs"] += 1
